@@ -1,5 +1,6 @@
 import HeimdallModel.Lemmas.Config
 import HeimdallModel.Lemmas.ConfigLeaf
+import HeimdallModel.Lemmas.ConfigYaml
 import HeimdallModel.Spec.ConfigSchema
 /-!
 # C20 — configuration file and environment variables are equivalent; the environment wins per leaf
@@ -257,6 +258,7 @@ theorem c20_env_spelling_partial (v : Value) (y : Scalar) (h : faithful v y = tr
   cases y with
   | null => simp [faithful] at h
   | coll => simp [faithful] at h
+  | time => simp [faithful] at h
   | float r => simp [faithful] at h
   | str x =>
     simp only [faithful, beq_iff_eq] at h
@@ -334,6 +336,123 @@ theorem c20_value_replaces_default (t : LeafType) (dflt : Leaf) (y : Scalar) (h 
 
 /-- not vacuous: a port from the environment over the default port -/
 example : decode .int (.int 9000) ≠ .zero ∧ decodeOver .int (.int 4455) (.int 9000) = .int 9000 := by decide
+
+/-! ## dialect: the validation of the file, the loader and the typing of variables read a text alike -/
+
+/-- The scalar the schema validation judges is the scalar the loader merges, and the scalar a variable with the same
+    text delivers, for every text. In the model the three decoders are one function (on the unchanged tree all three are
+    gopkg.in/yaml.v3); that the REAL `ValidateConfig`, the real `koanfFromYaml` and the real `toRealType` agree with
+    `readText` – and with each other – on the whole pool of dialect-sensitive texts is the obligation the
+    correspondence check discharges on every run (harness op `readings`, values stream `dialect`). -/
+theorem c20_validator_reads_like_loader (t : List Char) :
+    validatorReads t = loaderReads t ∧ loaderReads t = envReads t := ⟨rfl, rfl⟩
+
+/-- The loader's dialect (YAML 1.2 core schema): among ALL plain texts exactly `true True TRUE` / `false False FALSE`
+    are booleans. In particular no spelling of `yes no on off y n` is. -/
+theorem c20_only_six_booleans (s : List Char) (b : Bool) (h : readPlain s = .bool b) :
+    (b = true ∧ s ∈ trueWords) ∨ (b = false ∧ s ∈ falseWords) := by
+  unfold readPlain at h
+  split at h
+  · next y hy => subst h; exact wordReading_bool hy
+  · split at h
+    · simp at h
+    · split at h
+      · exact absurd h (numericReading_ne_bool _ _)
+      · split at h
+        · split at h <;> simp at h
+        · simp at h
+
+/-- ... and exactly `~ null Null NULL` and the empty text are nil -/
+theorem c20_only_five_nils (s : List Char) (h : readPlain s = .null) : s ∈ nullWords := by
+  unfold readPlain at h
+  split at h
+  · next y hy => subst h; exact wordReading_null hy
+  · split at h
+    · simp [nullWords]
+    · split at h
+      · exact absurd h (numericReading_ne_null _)
+      · split at h
+        · split at h <;> simp at h
+        · simp at h
+
+/-- The texts decoders of other dialects read differently (YAML 1.1 booleans in every case, the merge key, the value
+    key, sexagesimal numbers, near-octals) are, for validator, loader and environment typing alike, the string written. -/
+theorem c20_dialect_words_are_strings :
+    ∀ w ∈ dialectStrings, validatorReads w = some (.str w) ∧ loaderReads w = some (.str w) ∧ envReads w = some (.str w) := by
+  decide
+
+set_option exponentiation.threshold 2048 in
+/-- ... and these are not (nil words, octal / hexadecimal / underscore / exponent numerals, `.inf`, `.NaN`, a date, a
+    boolean): the file has to quote them for a string property, as the schema demands -/
+theorem c20_dialect_retyped_readings : ∀ p ∈ dialectRetyped, readText p.1 = some p.2 := by
+  decide
+
+/-- File ≡ environment for one text: whenever the file that says `t` at a leaf passes the validation, a variable carrying
+    `t` for that leaf yields the very same leaf (any leaf type, any JSON type the schema asks for, any text). -/
+theorem c20_file_accepted_same_as_env (lt : LeafType) (want : JsonType) (t : List Char) (l : Leaf)
+    (h : fileOutcomeOf lt want t = some (.leaf l)) : envOutcomeOf lt t = some (.leaf l) := by
+  unfold fileOutcomeOf validatorReads loaderReads at h
+  unfold envOutcomeOf envReads
+  cases hr : readText t with
+  | none => simp [hr] at h
+  | some y =>
+    simp only [hr, Option.bind_some, Option.map_some, fileOutcome, Option.some.injEq] at h
+    split at h
+    · simpa [envOutcome] using h
+    · simp at h
+
+/-- the hypothesis is satisfiable: `x-authenticated: yes` of a header finalizer (a member of a free-form map, the
+    schema wants a string) and `host: on` (a string field) -/
+example : fileOutcomeOf .any .string c!"yes" = some (.leaf (.raw (.str c!"yes")))
+    ∧ fileOutcomeOf .string .string c!"on" = some (.leaf (.str c!"on")) := by decide
+
+/-- A text all three decoders read as a string `s` (plain like `yes`, `1:30`, `<<`, or quoted like `"017"`) is usable
+    from the file and from the environment and arrives as `s` from both, at a string field of the configuration and at
+    a member of a free-form map (header template, `subject`, `auth_class`, `realm`, key store `password`). -/
+theorem c20_string_text_usable_from_both (t s : List Char) (h : readText t = some (.str s)) :
+    fileOutcomeOf .string .string t = some (.leaf (.str s)) ∧ envOutcomeOf .string t = some (.leaf (.str s))
+    ∧ fileOutcomeOf .any .string t = some (.leaf (.raw (.str s))) ∧ envOutcomeOf .any t = some (.leaf (.raw (.str s))) := by
+  simp [fileOutcomeOf, envOutcomeOf, validatorReads, loaderReads, envReads, h, fileOutcome, envOutcome, schemaAccepts,
+    decode]
+
+/-- not vacuous: plain, single and double quoted -/
+example : readText c!"off" = some (.str c!"off") ∧ readText c!"'017'" = some (.str c!"017")
+    ∧ readText c!"\"~\"" = some (.str c!"~") := by decide
+
+/-- "Usable from a file iff usable from the environment" for a string property, text by text. Partial: it holds for
+    every text read as a string, as a timestamp or as a collection (usable from both, resp. from neither); it is false
+    on the code as it is for the texts read as nil, integer, float or boolean – the schema rejects the unquoted text in
+    the file while the variable is retyped and loads (`c20_string_place_file_iff_env_fails_numeral`, known finding
+    C20-env-value-retyped). -/
+theorem c20_string_place_file_iff_env_partial (t : List Char) (y : Scalar) (h : readText t = some y)
+    (hy : (∃ s, y = .str s) ∨ y = .time ∨ y = .coll) :
+    ∃ f e, fileOutcomeOf .string .string t = some f ∧ envOutcomeOf .string t = some e ∧ f.usable = e.usable := by
+  refine ⟨fileOutcome .string .string y y, envOutcome .string y, ?_, ?_, ?_⟩
+  · simp [fileOutcomeOf, validatorReads, loaderReads, h]
+  · simp [envOutcomeOf, envReads, h]
+  · rcases hy with ⟨s, rfl⟩ | rfl | rfl <;> simp [fileOutcome, envOutcome, schemaAccepts, decode, Outcome.usable]
+
+/-- the hypotheses are satisfiable by each kind: a YAML 1.1 boolean word, and a date -/
+example : readText c!"no" = some (.str c!"no") ∧ readText c!"2001-12-14" = some .time := by decide
+
+/-- the unrestricted statement fails: `host: 017` is rejected by the schema ("got number, want string"), `HOST=017`
+    loads (as `"15"`) -/
+theorem c20_string_place_file_iff_env_fails_numeral :
+    fileOutcomeOf .string .string c!"017" = some .rejected
+    ∧ (∃ e, envOutcomeOf .string c!"017" = some e ∧ e.usable = true) := by
+  have hr : readText c!"017" = some (.int 15) := by decide
+  refine ⟨?_, .leaf (decode .string (.int 15)), ?_, ?_⟩
+  · simp [fileOutcomeOf, validatorReads, loaderReads, hr, fileOutcome, schemaAccepts]
+  · simp [envOutcomeOf, envReads, hr, envOutcome]
+  · simp [decode, Outcome.usable]
+
+/-- Why a validator with another dialect breaks the property (the seeded defect, stated for any validator reading): if
+    the validator reads a boolean where the loader reads the string, the file is rejected although the variable loads. -/
+theorem c20_other_dialect_rejects (s : List Char) (b : Bool) :
+    fileOutcome .string .string (.bool b) (.str s) = .rejected
+    ∧ (envOutcome .string (.str s)).usable = true ∧ (fileOutcome .string .string (.str s) (.str s)).usable = true := by
+  simp [fileOutcome, envOutcome, schemaAccepts, decode, Outcome.usable]
+
 
 /-! ## histories: a load is a function of its own file and environment -/
 
